@@ -165,9 +165,10 @@ func verifyErrorHandlers(trigger JobTrigger, id string, title string) error {
 	return nil
 }
 
-// handleJobError is called after a job run has completed. if the run ended with an error, this function
-// will schedule a rerun if configured
-func (j *job) handleJobError(err *error) {
+// recordSinkErrors is called at the end of a run, before its ticket is returned. If the run itself ended without
+// error but the wrapped sink has collected errors of single entities, they become the run's error, in the
+// stored result too
+func (j *job) recordSinkErrors(err *error) {
 	if err == nil || *err == nil || *err == MaxItemsExceededError {
 		if wrappedSink, isWrapped := j.pipeline.spec().sink.(*wrappedSink); isWrapped {
 			if wrappedSink.lastError != nil {
@@ -181,13 +182,17 @@ func (j *job) handleJobError(err *error) {
 				lastRun.Processed = wrappedSink.lastProcessed
 				_ = j.runner.store.StoreObject(server.JobResultIndex, j.id, lastRun)
 				j.runner.logger.Warnw("job %v (%v) completed, but errors occurred: %w", j.title, j.id, *err)
-			} else {
-				return
 			}
-		} else {
-			j.runner.logger.Debugf("job %v (%v) completed successfully", j.title, j.id)
-			return
 		}
+	}
+}
+
+// handleJobError is called after a job run has completed. if the run ended with an error, this function
+// will schedule a rerun if configured
+func (j *job) handleJobError(err *error) {
+	if err == nil || *err == nil || *err == MaxItemsExceededError {
+		j.runner.logger.Debugf("job %v (%v) completed successfully", j.title, j.id)
+		return
 	}
 	if err != nil && *err != nil && (*err).Error() == "got job interrupt" {
 		j.runner.logger.Debugf("job %v (%v) interrupted", j.title, j.id)
